@@ -188,7 +188,7 @@ def run(res):
                 '(c) the property statement itself (quadratic form = sum of squared differences, symmetry, constants/lines '
                 'unpenalised) evaluated on the implementation with integer coefficient vectors. A case is distinct by its '
                 '(function,n,d,periodic) or by its term-list specification; all are non-trivial except n=1.')
-    common.standard_prove(res, PROPS_FILE)
+    common.standard_prove(res, PROPS_FILE, extra=['Model/C04Check.vo'])
     direct_probe(res, rng, res.tier)
     c1, m1 = fn_cases(res, res.tier)
     c2, m2 = term_cases(res, rng, res.tier)
